@@ -68,6 +68,12 @@ class Builtins:
             return Str.lit(f"{v.cls.name}.{v.member}")
         if isinstance(v, ExcV):
             return Str((Hole(I.run.new_tag("exc_text"), "exc"),))
+        if isinstance(v, Obj):
+            # an object that says how it is written: __str__ (str(), f-strings), else __repr__
+            for dunder in ("__str__", "__repr__"):
+                m = v.cls.find_method(dunder)
+                if m is not None:
+                    return self.to_str(I.call_func(m, [], {}, v, node, fr), node, fr)
         if isinstance(v, (ListV, AbsList, DictV, TupleV, SetV, Obj, ClassV)):
             return Str((Hole(I.run.new_tag("repr_of_" + type(v).__name__), "repr", meta={"of": v}),))
         raise I.unsupported(f"str() of {v!r}", node, fr)
